@@ -46,7 +46,9 @@ def handle (op : String) (j : Json) : Option (R Json) :=
         | some (Json.arr a) => do pure ((← floatOfJson a[0]!), (← floatOfJson a[1]!))
         | _ => pure (zShift mask)
       let cells := idxList mask.s0 mask.s1
-      pure (okJ [("rho", floatsJ (cells.map fun (i, jj) => zRho Float.sqrt mask s i jj)),
+      -- zRho sqrt mask s i j = zRad sqrt mask s i j / zRmax sqrt mask s (by definition); the maximum is evaluated once
+      let rmax := zRmax Float.sqrt mask s
+      pure (okJ [("rho", floatsJ (cells.map fun (i, jj) => zRad Float.sqrt mask s i jj / rmax)),
                  ("theta", floatsJ (cells.map fun (i, jj) => zTheta Float.atan2 cs[0]! cs[1]! mask s i jj)),
                  ("shift", floatsJ [s.1, s.2])])
   | _ => none
